@@ -307,7 +307,7 @@ class Conditional(__Group):
         if not isinstance(name, str):
             message = "Provided argument \"name\" is not a string."
             raise _ex.InvalidArgumentTypeException(message)
-        if _re.fullmatch("[A-Za-z_][\w]*", name) is None:
+        if _re.fullmatch("[A-Za-z_][\w]*", name) is None or not name.isidentifier():
             raise _ex.InvalidCapturingGroupNameException(name)
         pre1 = __class__._to_pregex(pre1)._concat_conditional_group()
         if pre2 is not None:
